@@ -58,6 +58,7 @@ func (a *mutex[T]) Lock(key T) {
 	a.lock.RLock()
 	mutex, ok := a.items[key]
 	a.lock.RUnlock()
+	verifPoint("cmap.lock.lookedUp", "key", key, "found", ok)
 	if ok {
 		mutex.Lock()
 		return
@@ -70,6 +71,7 @@ func (a *mutex[T]) Lock(key T) {
 		a.items[key] = mutex
 	}
 	a.lock.Unlock()
+	verifPoint("cmap.lock.created", "key", key)
 	mutex.Lock()
 }
 
@@ -86,6 +88,7 @@ func (a *mutex[T]) RLock(key T) {
 	a.lock.RLock()
 	mutex, ok := a.items[key]
 	a.lock.RUnlock()
+	verifPoint("cmap.rlock.lookedUp", "key", key, "found", ok)
 
 	if ok {
 		mutex.RLock()
@@ -99,6 +102,7 @@ func (a *mutex[T]) RLock(key T) {
 		a.items[key] = mutex
 	}
 	a.lock.Unlock()
+	verifPoint("cmap.rlock.created", "key", key)
 	mutex.RLock()
 }
 
